@@ -80,6 +80,29 @@ func nestedIIFE(info *types.Info, e ast.Expr, top bool) *ast.CallExpr {
 		}
 		return c
 	}
+	// an operand of an arithmetic or comparison operator (never of && / ||, whose right side may not run at all): the
+	// left operand first; the right one when the left is a plain operand
+	switch x := ast.Unparen(e).(type) {
+	case *ast.BinaryExpr:
+		if x.Op == token.LAND || x.Op == token.LOR {
+			if isSimpleOperand(info, x.X) {
+				return nil
+			}
+			return nestedIIFE(info, x.X, false)
+		}
+		if !isSimpleOperand(info, x.X) {
+			return nestedIIFE(info, x.X, false)
+		}
+		if isSimpleOperand(info, x.Y) {
+			return nil
+		}
+		return nestedIIFE(info, x.Y, false)
+	case *ast.UnaryExpr:
+		if x.Op == token.NOT || x.Op == token.SUB || x.Op == token.XOR || x.Op == token.ADD {
+			return nestedIIFE(info, x.X, false)
+		}
+		return nil
+	}
 	ce, ok := ast.Unparen(e).(*ast.CallExpr)
 	if !ok {
 		return nil
